@@ -7,6 +7,8 @@
              store/purge, touch set/clear, last-handled store, finalizer add/remove, result in status) x storage
              configuration x body;
     foreign  the same for writes of ANOTHER Kopf-based operator (other prefix) seen by this operator;
+    echo     the last-handled state fetched back from the object after the framework's own write of it equals the essence of
+             that object (it is there, and nothing differs), for every storage configuration x body incl. empty essences;
     visible  edits of spec / payload / labels / ordinary annotations must change the essence;
     essence  the implementation's essence equals the reference Essence(body, x) of the specification;
     diff / reduce  diffs.diff and diffs.reduce against the reference Diff / ReduceRef, soundness, completeness.
@@ -176,6 +178,14 @@ def build_essence_records(quick: bool, seed: int) -> list[dict[str, Any]]:
                 xf = [('metadata', 'annotations')]
                 recs.append({'kind': 'own', 'cfg': name + '+annotations-field', 'write': wname, 'before': enc(essence(cfg, body, xf)),
                              'after': enc(essence(cfg, after_body, xf)), 'body': enc({})})
+            # the echo of the framework's own last-handled write: what is fetched back from the patched object is the essence of
+            # that object -- stored, hence "handled before", and no difference (empty and falsy essences included)
+            from kopf._cogs.structs import bodies as _bodies, patches as _patches
+            p_ = _patches.Patch(); cfg['diffbase'].store(body=_bodies.Body(copy.deepcopy(body)), patch=p_, essence=before)
+            echoed = k8s_apply(body, dict(p_))
+            old_ = cfg['diffbase'].fetch(body=_bodies.Body(copy.deepcopy(echoed)))
+            recs.append({'kind': 'echo', 'cfg': name, 'hasold': old_ is not None, 'old': enc(old_ if old_ is not None else {}),
+                         'new': enc(essence(cfg, echoed))})
             for ename, b2 in visible_edits(body):
                 recs.append({'kind': 'visible', 'cfg': name, 'write': ename, 'before': enc(before), 'after': enc(essence(cfg, b2))})
     # another Kopf-based operator writes; this operator (default configuration) must not see it
